@@ -28,7 +28,7 @@ B63 = 2 ** 63
 B64 = 2 ** 64
 
 RULE = ("exhaustive block: every 2-node networkx graph with one property whose value per node ranges over {absent, True, False, 0, 7, "
-        "2^63, 2^64-1, 1.5, 'a', '', [1,2], [3], [[1,2]], [1.5]} (all 196 pairs) x directed/undirected x reader {networkx, rustworkx} and the "
+        "2^63, 2^64-1, 1.5, 'a', '', [1,2], [3], [[1,2]], [1.5], [2^63, 2^64-1], []} (all 256 pairs) x directed/undirected x reader {networkx, rustworkx} and the "
         "same column as an edge property; thorough adds the 3-node block over 9 values (729 columns); random attribute graphs (N<=6; ids "
         "from {0, small, 2^63-1, 2^63, 2^63+k, 2^64-1}; edges incl. both orientations and self loops; per property a column kind in {bool, int, "
         "int beyond int64, float, str, fixed list rank 1/2 of bool/int/float/str, ragged lists, ragged with mixed rank / empty lists, "
@@ -37,19 +37,37 @@ RULE = ("exhaustive block: every 2-node networkx graph with one property whose v
         "metadata- or argument-supplied axis names) x reader {read_to_memory, networkx, rustworkx, spatial-graph} x zarr_format {2,3}; "
         "in-memory geffs (every id dtype, masks, var-length, float16/32, duplicate ids, edges to unknown nodes, no axes) x construct "
         "through the three backends; malformed stream: negative ids, ids >= 2^64, duplicate axis names, axis names that are no "
-        "property, axes with missing values, ndims mismatch; non-trivial = at least one node and one property; distinct by structural input")
-EXHAUSTIVE_BLOCKS = ["networkx N=2 x one node property, per-node value over 14 choices incl. absent (196 columns) x directed {T,F} x reader "
-                     "{networkx, rustworkx} ; the same 196 columns as an edge property on a 3-node path (reader networkx)",
+        "property, axes with missing values, ndims mismatch; audit streams: lists / ragged lists of ints in [2^63, 2^64), all-empty-list columns, "
+        "floats that are multiples of 2^-10 but not float32-exact; oracle-only values (0.1, 1e-7, 2^-30, 1/3, 1e300, 5e-324, NaN, +-inf, strings with "
+        "trailing / inner NUL, numpy scalars and ndarrays of several dtypes as attribute values); rustworkx multigraphs (parallel edges, both "
+        "orientations undirected) and in-memory geffs with a repeated edge; 44 property names and 7 name sets on nodes and on edges under both zarr "
+        "formats (reserved member names, '/', '\\', '.', '..', '', control characters, 300 characters); int8 / uint8 vector attributes and an "
+        "int8 position through spatial-graph (negative control); one random graph in eight is written to a directory path instead of a store object; "
+        "non-trivial = at least one node and one property; distinct by structural input")
+EXHAUSTIVE_BLOCKS = ["networkx N=2 x one node property, per-node value over 16 choices incl. absent (256 columns) x directed {T,F} x reader "
+                     "{networkx, rustworkx} ; the same 256 columns as an edge property on a 3-node path (reader networkx)",
                      "thorough: networkx N=3 x one node property over 9 choices (729 columns), reader networkx, zarr 3"]
 ASSUMPTIONS = [
     "graph-library containers are modelled by their observable API: the harness reads node / edge iteration order and payloads off the "
     "real object and hands that to the model; networkx adjacency order, rustworkx index allocation and spatial_graph's C++ storage are trusted",
     "attribute values in the correspondence are Python bool/int/float/str and nested lists (numpy arrays / numpy scalars as attribute "
-    "values are oracle-only); floats are exact multiples of 2^-10; ints lie in [-2^63, 2^64)",
+    "values are generated and oracle-only); floats in the correspondence are exact multiples of 2^-10 (others, NaN and +-inf are generated "
+    "and oracle-only); ints lie in [-2^63, 2^64); strings ending in NUL are interned as token(stripped) + k*2^32 and are oracle-only "
+    "(open finding str-trailing-nul-stripped: the theorems carry the hypothesis)",
     "mixed-kind columns (int with float, bool with int) are outside the claim (a column has one dtype) -- the oracle skips them, the "
     "correspondence still compares them; numbers mixed with strings are outside the model as well",
-    "property names are the ones zarr accepts as member names; the set order of the collected names is irrelevant (dict semantics)",
-    "spatial-graph domain: >= 1 axis, int8..uint64 / float32 / float64 scalar or vector attributes on every element, no property "
+    "property names: the theorems carry Names.name_ok (one path segment, no reserved member name of either zarr format); name_ok_fmt is "
+    "tied to the real write per format (IName cases), names with control characters are oracle-only; the set order of the collected names "
+    "is irrelevant (dict semantics)",
+    "no edge twice is a hypothesis of every networkx / agreement statement (networkx graphs are simple graphs); on repeated edges the oracle "
+    "checks what each backend alone promises: rustworkx keeps every parallel edge in order, networkx keeps one edge per key with, per "
+    "property, the value of the last occurrence that carries it; the RxGraphAdapter cannot address parallel edges (get_edge_data(u, v)), "
+    "so the edges of a multigraph are read off weighted_edge_list()",
+    "networkx node order is insertion order; networkx edge order is the adjacency order (EdgeView / OutEdgeView), computed in Coq from the "
+    "model's insertion-ordered tables (Corr/C03.nx_edges_view) and compared position by position",
+    "spatial-graph domain: >= 1 axis, int8..uint64 / float32 / float64 scalar attributes and int16..uint64 / float32 / float64 vector "
+    "attributes on every element (int8 / uint8 VECTORS and an 8-bit position come back from spatial_graph as a bytes scalar: open finding "
+    "sg-8bit-vector-read-as-bytes, generated as a negative control), no property "
     "called like position_attr, axis properties of one dtype (they are squished into one position array); outside it the oracle is silent",
     "fresh MemoryStore targets only (existing targets / overwrite are C06); metadata other than directed / axes names is an opaque token",
 ]
@@ -108,12 +126,62 @@ def c_mgraph(g, it) -> str:
             f"{c_props_np(g['node_props'], it)} {c_props_np(g['edge_props'], it)})")
 
 
+NUL_BASE = 2 ** 32
+
+
 class It(Interner):
-    """The empty string is token 0 (the model's default fill for a string property)."""
+    """The empty string is token 0 (the model's default fill for a string property).  A string with k >= 1 trailing NUL characters is
+    token(string without them) + k * 2^32 (C03Lemmas.nul_base): the theorems speak about tokens below 2^32."""
 
     def __init__(self):
         super().__init__()
         self.tab[""] = 0
+
+    def tok(self, s) -> int:
+        if isinstance(s, str) and s.endswith("\x00"):
+            base = s.rstrip("\x00")
+            return super().tok(base) + (len(s) - len(base)) * NUL_BASE
+        return super().tok(s)
+
+
+# --------------------------------------------------------------------------
+# attribute values that JSON cannot carry: numpy scalars / arrays, non-finite floats (tagged dicts in the case, decoded on use)
+# --------------------------------------------------------------------------
+def np_scalar(dt, v):
+    return {"__np__": dt, "scalar": True, "v": v}
+
+
+def np_array(dt, v):
+    return {"__np__": dt, "scalar": False, "v": v}
+
+
+def dec_val(v):
+    if isinstance(v, dict) and "__np__" in v:
+        if v["scalar"]:
+            return np.dtype(v["__np__"]).type(v["v"])
+        return np.array(v["v"], dtype=v["__np__"])
+    if isinstance(v, dict) and "__f__" in v:
+        return float(v["__f__"])
+    if isinstance(v, (list, tuple)):
+        return [dec_val(x) for x in v]
+    return v
+
+
+def dec_attrs(d: dict) -> dict:
+    return {k: dec_val(v) for k, v in d.items()}
+
+
+def val_outside_model(v) -> bool:
+    """numpy values, non-finite floats, floats that are no multiple of 2^-10, strings ending in NUL: never sent to Coq."""
+    if isinstance(v, dict):
+        return True
+    if isinstance(v, (list, tuple)):
+        return any(val_outside_model(x) for x in v)
+    if isinstance(v, float):
+        return v != v or v in (float("inf"), float("-inf")) or v * 1024.0 != int(v * 1024.0)
+    if isinstance(v, str):
+        return v.endswith("\x00")
+    return False
 
 
 # --------------------------------------------------------------------------
@@ -161,6 +229,8 @@ def list_shape_leaves(v):
 def cv(v):
     """Canonical value: ['s', kind, value] | ['a', kind, shape, flat]  (kind of the leaves; '?' for an empty python list)."""
     if isinstance(v, np.ndarray):
+        if v.dtype.kind == "S":
+            return ["bytes", str(v.dtype), list(v.shape), v.tobytes().hex()]      # spatial_graph's view of an int8[k] / uint8[k] attribute
         k = {"b": "bool", "i": "int", "u": "int", "f": "float", "U": "str", "T": "str"}.get(v.dtype.kind)
         if k is None:
             raise HarnessError(f"array of dtype {v.dtype} in a canonical view")
@@ -235,10 +305,10 @@ def build_nx(w):
     g = nx.DiGraph() if w["directed"] else nx.Graph()
     for nid, attrs in w["nodes"]:
         g.add_node(nid)
-        g.nodes[nid].update(copy.deepcopy(attrs))
+        g.nodes[nid].update(dec_attrs(copy.deepcopy(attrs)))
     for (u, v), attrs in w["edges"]:
         g.add_edge(u, v)
-        g.edges[u, v].update(copy.deepcopy(attrs))
+        g.edges[u, v].update(dec_attrs(copy.deepcopy(attrs)))
     return g
 
 
@@ -247,9 +317,9 @@ def build_rx(w):
 
     g = rx.PyDiGraph() if w["directed"] else rx.PyGraph()
     for slot in w["slots"]:
-        g.add_node({} if slot is None else copy.deepcopy(slot))
+        g.add_node({} if slot is None else dec_attrs(copy.deepcopy(slot)))
     for (u, v), attrs in w["edges"]:
-        g.add_edge(u, v, copy.deepcopy(attrs))
+        g.add_edge(u, v, dec_attrs(copy.deepcopy(attrs)))
     for i, slot in enumerate(w["slots"]):
         if slot is None:
             g.remove_node(i)
@@ -419,6 +489,27 @@ def run_impl(c):
     from zarr.storage import MemoryStore
 
     w = c["writer"]
+    if c.get("kind") == "name":
+        return run_name(c)
+    if c.get("store") == "path":
+        # a directory path instead of a store object (the theorems are stated for every store kind: C03_*_anystore)
+        import shutil
+        import tempfile
+
+        tmp = tempfile.mkdtemp(prefix="c03-")
+        try:
+            return run_rt(c, tmp + "/g.geff")
+        finally:
+            shutil.rmtree(tmp, ignore_errors=True)
+    return run_rt(c, None)
+
+
+def run_rt(c, path):
+    import geff
+    from geff.core_io import read_to_memory
+    from zarr.storage import MemoryStore
+
+    w = c["writer"]
     try:
         if w["lib"] == "mem":
             m = mem_geff(w)
@@ -426,7 +517,7 @@ def run_impl(c):
             kw = {"position_attr": c["pos"]} if c["reader"] == "sg" and c["pos"] != "position" else {}
             graph = geff.construct(**m, backend=BACKEND[c["reader"]], **kw)
             return observe(c["reader"], graph, md, c["pos"])
-        store = MemoryStore()
+        store = MemoryStore() if path is None else path
         if w["lib"] == "nx":
             geff.write(build_nx(w), store, axis_names=w["axes"], zarr_format=c["fmt"], **md_kwargs(w))
         elif w["lib"] == "rx":
@@ -448,6 +539,39 @@ def run_impl(c):
         raise
     except Exception as e:
         return {"exc": exn_name(e), "cls": type(e).__name__, "msg": str(e)[:200]}
+
+
+def geff_left(store) -> bool:
+    """Does the store (still) look like a geff: a root group with a `geff` attribute."""
+    import zarr
+
+    try:
+        root = zarr.open_group(store, mode="r")
+    except Exception:
+        return False
+    return "geff" in dict(root.attrs)
+
+
+def run_name(c):
+    """A graph whose property NAMES are the point of the case, written under zarr format 2 and 3: exact round trip, or refusal."""
+    import geff
+    from zarr.storage import MemoryStore
+
+    out = {}
+    for fmt in (2, 3):
+        store = MemoryStore()
+        g = build_nx(c["writer"])
+        try:
+            geff.write(g, store, zarr_format=fmt)
+            g2, _ = geff.read(store, backend="networkx")
+            same = (list(g2.nodes(data=True)) == list(g.nodes(data=True)) and
+                    sorted(map(repr, g2.edges(data=True))) == sorted(map(repr, g.edges(data=True))))
+            out[str(fmt)] = {"ok": same, "exc": None, "left": geff_left(store)}
+        except HarnessError:
+            raise
+        except Exception as e:
+            out[str(fmt)] = {"ok": False, "exc": type(e).__name__, "msg": str(e)[:120], "left": geff_left(store)}
+    return {"name": out}
 
 
 # --------------------------------------------------------------------------
@@ -552,6 +676,11 @@ def c_obs(c, o, it) -> str:
 
 
 def coq_case(c, o):
+    if c.get("kind") == "name":
+        if len(c["names"]) != 1 or any(ord(ch) < 32 for ch in c["names"][0]):
+            return None                                  # pairs of names; names the Coq string printer cannot carry
+        r = o["name"]
+        return f"(IName {cstr(c['names'][0])}, OName {cbool(r['2']['ok'])} {cbool(r['3']['ok'])})"
     if c.get("oracle_only"):
         return None
     if "exc" in o and o["exc"] == "OtherExn" and c.get("outside_ok"):
@@ -575,8 +704,8 @@ def expected_graph(w):
     """Canonical content of the written object: directed, {id: {name: python value}}, {(u,v): {name: value}}; None when the input
     lies outside the quantifier of the property (ids outside [0, 2^64), ...)."""
     if w["lib"] == "nx":
-        nodes = {n: dict(a) for n, a in w["nodes"]}
-        edges = {(u, v): dict(a) for (u, v), a in w["edges"]}
+        nodes = {n: dec_attrs(a) for n, a in w["nodes"]}
+        edges = {(u, v): dec_attrs(a) for (u, v), a in w["edges"]}
     elif w["lib"] == "rx":
         idm = None if w["idmap"] is None else {a: b for a, b in w["idmap"]}
         live = [i for i, s in enumerate(w["slots"]) if s is not None]
@@ -585,8 +714,8 @@ def expected_graph(w):
         tr = (lambda i: i) if idm is None else (lambda i: idm[i])
         if len({tr(i) for i in live}) != len(live):
             return None
-        nodes = {tr(i): dict(w["slots"][i]) for i in live}
-        edges = {(tr(u), tr(v)): dict(a) for (u, v), a in w["edges"] if w["slots"][u] is not None and w["slots"][v] is not None}
+        nodes = {tr(i): dec_attrs(w["slots"][i]) for i in live}
+        edges = {(tr(u), tr(v)): dec_attrs(a) for (u, v), a in w["edges"] if w["slots"][u] is not None and w["slots"][v] is not None}
     elif w["lib"] == "sg":
         names = w["axes"] if w["axes"] is not None else (w["md"]["axes"] if w.get("md") and w["md"]["axes"] is not None else None)
         if names is None:
@@ -690,11 +819,59 @@ def num_equal(ev, gv) -> bool:
     if shape != gshape or len(flat) != len(gflat):
         return False
     for a, b in zip(flat, gflat):
+        a = py_plain(a)
         if isinstance(a, str) != isinstance(b, str):
             return False
+        if isinstance(a, float) and isinstance(b, float) and a != a and b != b:
+            continue                                     # NaN comes back as NaN
         if a != b:
             return False
     return True
+
+
+def elem_kind(ev):
+    """Element kind of an expected array value (None: no element, e.g. [])."""
+    if isinstance(ev, np.ndarray):
+        return {"b": "bool", "i": "int", "u": "int", "f": "float", "U": "str", "T": "str"}.get(ev.dtype.kind) if ev.size else None
+    sl = list_shape_leaves(ev)
+    ks = {kind_of_py(x) for x in (sl[1] if sl else [])}
+    return ks.pop() if len(ks) == 1 else None
+
+
+def has_trailing_nul(ev) -> bool:
+    if isinstance(ev, str):
+        return ev.endswith("\x00")
+    if isinstance(ev, (list, tuple)):
+        return any(has_trailing_nul(x) for x in ev)
+    return False
+
+
+def column_may_raise(vs) -> bool:
+    """Columns for which an exception is documented / expected behaviour: a value that is ragged inside, lists next to scalars,
+    strings next to numbers inside lists, an int no 64-bit dtype holds."""
+    kinds = {kind_of_py(v) for v in vs}
+    if "array" in kinds and len(kinds) > 1:
+        return True
+    for v in vs:
+        if isinstance(v, (list, tuple)):
+            sl = list_shape_leaves(v)
+            if sl is None:
+                return True
+            lk = {kind_of_py(x) for x in sl[1]}
+            if "str" in lk and len(lk) > 1:
+                return True
+            if any(kind_of_py(x) == "int" and (x < -B63 or x >= B64) for x in sl[1]):
+                return True
+        elif kind_of_py(v) == "int" and (v < -B63 or v >= B64):
+            return True
+    if kinds == {"array"}:
+        lks = set()
+        for v in vs:
+            if isinstance(v, (list, tuple)):
+                lks |= {kind_of_py(x) for x in list_shape_leaves(v)[1]}
+        if "str" in lks and len(lks) > 1:
+            return True
+    return False
 
 
 def canon_value_to_py(c):
@@ -770,6 +947,8 @@ def compare(c, exp, got_directed, got_nodes, got_edges, reader, axes):
                     continue
                 ev, gv = d[k], gd[k]
                 ek = kind_of_py(ev)
+                if gv[0] == "bytes":
+                    return (f"{what} {key} property {k!r}: {ev!r} came back as a bytes scalar {gv[1]} 0x{gv[3]}", {"why": "sg-8bit-vector"})
                 gk = "array" if gv[0] == "a" else gv[1]
                 lenient = reader == "sg" and what == "node" and k in axes and len(axis_kinds) > 1
                 if ek != gk and not lenient:
@@ -780,16 +959,28 @@ def compare(c, exp, got_directed, got_nodes, got_edges, reader, axes):
                     return (f"{what} {key} property {k!r}: integer array {ev!r} came back with float elements {canon_value_to_py(gv)!r}", tags)
                 if not num_equal(ev, gv):
                     tags = {"why": "value", "int_beyond_int64": bool(status[k][2])}
+                    if has_trailing_nul(ev):
+                        tags["str_trailing_nul"] = True   # numpy's fixed-width <U strips trailing NULs
                     if ek == "array" and any(isinstance(x, (list, tuple)) and (list_shape_leaves(x) or ((), [0]))[1] == [] for x in cols[k]):
                         tags["empty_list"] = True     # an empty list is typed float64 by numpy and drags the column along
                     return f"{what} {key} property {k!r}: {ev!r} came back as {canon_value_to_py(gv)!r}", tags
+                if ek == "array" and gv[0] == "a" and gv[1] != "?" and elem_kind(ev) is not None and elem_kind(ev) != gv[1]:
+                    tags = {"why": "elem-kind", "int_beyond_int64": bool(status[k][2])}
+                    if any(isinstance(x, (list, tuple)) and (list_shape_leaves(x) or ((), [0]))[1] == [] for x in cols[k]):
+                        tags["empty_list"] = True     # an empty list is typed float64 by numpy and drags the column along
+                    return (f"{what} {key} property {k!r}: array of {elem_kind(ev)} {ev!r} came back with {gv[1]} elements "
+                            f"{canon_value_to_py(gv)!r}", tags)
     return None
 
 
 def oracle(c, o):
+    if c.get("kind") == "name":
+        return name_oracle(c, o)
     if c["reader"] == "mem" or c.get("no_oracle"):
         return None
     w = c["writer"]
+    if c.get("multi"):
+        return multi_oracle(c, o)
     exp = expected_graph(w)
     if exp is None:
         return None                                     # outside the quantifier (malformed input)
@@ -822,6 +1013,9 @@ def oracle(c, o):
         return None                                     # spatial-graph has no missing values (documented)
     if w["lib"] == "sg" and (not axes and exp["nodes"]):
         return None
+    if "exc" in o and c.get("sg8"):
+        return Failure(c, o, f"spatial-graph view of an 8-bit position raised {o.get('cls')}: {o.get('msg')}",
+                       {"why": "sg-8bit-vector", "exc": o.get("cls"), "writer": w["lib"], "reader": c["reader"]})
     if "exc" in o:
         # any column that cannot be one array (mixed kinds, strings with numbers, ragged inside a value) excuses an exception
         for table in (exp["nodes"], exp["edges"]):
@@ -829,7 +1023,7 @@ def oracle(c, o):
             for d in table.values():
                 for k, v in d.items():
                     cols.setdefault(k, []).append(v)
-            if any(not column_status(vs)[0] for vs in cols.values()):
+            if any(column_may_raise(vs) for vs in cols.values()):
                 return None
         return Failure(c, o, f"round trip {w['lib']} -> {c['reader']} raised {o.get('cls')}: {o.get('msg')}",
                        {"why": "raises", "exc": o.get("cls"), "writer": w["lib"], "reader": c["reader"]})
@@ -860,6 +1054,104 @@ def oracle(c, o):
     what, tags = r
     tags = dict(tags, writer=w["lib"], reader=c["reader"])
     return Failure(c, o, f"{w['lib']} -> {c['reader']} (zarr {c['fmt']}): {what}", tags)
+
+
+# ---- property names (audit F3) ----
+RESERVED_V2 = (".zarray", ".zgroup", ".zattrs", ".zmetadata")
+RESERVED_V3 = ("zarr.json",)
+
+
+def name_ok_py(name: str, fmt=None) -> bool:
+    """Names.name_ok (fmt None) / Names.name_ok_fmt, re-stated from the zarr rules, not from the Coq text."""
+    if name == "" or "/" in name or "\\" in name or name in (".", ".."):
+        return False
+    if fmt in (None, 2) and name in RESERVED_V2:
+        return False
+    if fmt in (None, 3) and name in RESERVED_V3:
+        return False
+    return True
+
+
+def name_oracle(c, o):
+    """Every property name: the write either round-trips exactly or is refused with an exception leaving no geff behind; a set of
+    usable names (name_ok for the format) must round-trip."""
+    for fmt in (2, 3):
+        r = o["name"][str(fmt)]
+        usable = all(name_ok_py(n, fmt) for n in c["names"])
+        if r["ok"]:
+            continue
+        if r["exc"] is None:
+            return Failure(c, o, f"property names {c['names']!r} (zarr {fmt}): the graph read back differs from the graph written",
+                           {"why": "name", "fmt": fmt})
+        if r["left"]:
+            return Failure(c, o, f"property names {c['names']!r} (zarr {fmt}): {r['exc']} raised and a geff was left behind",
+                           {"why": "name-left", "fmt": fmt})
+        if usable:
+            return Failure(c, o, f"usable property names {c['names']!r} (zarr {fmt}) refused: {r['exc']}: {r.get('msg')}",
+                           {"why": "name-refused", "fmt": fmt})
+    return None
+
+
+# ---- repeated edges (audit F4): what each backend alone promises ----
+def multi_edges(w):
+    """(directed, {id: attrs}, [((u, v), attrs)] in stored order) of a rustworkx writer / an in-memory geff with repeated edges."""
+    if w["lib"] == "rx":
+        idm = None if w["idmap"] is None else {a: b for a, b in w["idmap"]}
+        tr = (lambda i: i) if idm is None else (lambda i: idm[i])
+        nodes = {tr(i): dec_attrs(s_) for i, s_ in enumerate(w["slots"]) if s_ is not None}
+        return w["directed"], nodes, [((tr(u), tr(v)), dec_attrs(a)) for (u, v), a in w["edges"]]
+    nids = gg.to_np(w["nids"]).tolist()
+    eids = [tuple(r) for r in gg.to_np(w["eids"]).reshape(-1, 2).tolist()]
+    ne = [dict() for _ in nids]
+    ee = [dict() for _ in eids]
+    for ps, out in ((w["nprops"], ne), (w["eprops"], ee)):
+        for k, p in (gg.props_to_np(ps) or {}).items():
+            for i in range(len(out)):
+                if p["missing"] is None or not p["missing"][i]:
+                    out[i][k] = np.asarray(p["values"][i]).tolist()
+    return w["md"]["directed"], dict(zip(nids, ne)), list(zip(eids, ee))
+
+
+def multi_oracle(c, o):
+    """rustworkx keeps every parallel edge, in order, with its own attributes; networkx keeps ONE edge per key (unordered key when
+    undirected) carrying, per property, the value of the LAST occurrence that has it (documented domain of networkx: simple graphs)."""
+    w = c["writer"]
+    directed, nodes, edges = multi_edges(w)
+    norm = (lambda e: e) if directed else (lambda e: (min(e), max(e)))
+    if "exc" in o:
+        return Failure(c, o, f"multigraph {w['lib']} -> {c['reader']} raised {o.get('cls')}: {o.get('msg')}",
+                       {"why": "raises", "exc": o.get("cls"), "writer": w["lib"], "reader": c["reader"], "multi": True})
+    if "nx" in o:
+        x = o["nx"]
+        coll = {}
+        for e, a in edges:
+            coll.setdefault(norm(e), {}).update(a)          # later occurrences overwrite, property by property
+        exp = {"directed": directed, "nodes": nodes, "edges": coll}
+        r = compare(c, exp, x["directed"], {n: d for n, d in x["nodes"]}, {tuple(e): d for e, d in x["edges"]}, "nx", [])
+    elif "rx" in o:
+        x = o["rx"]
+        inv = {v: k for k, v in x["map"]}
+        # the RxGraphAdapter addresses an edge by its endpoints (graph.get_edge_data(u, v)) and so cannot tell parallel edges apart:
+        # the edges of a multigraph are read off weighted_edge_list() (what the correspondence compares as well)
+        if len(inv) != len(x["map"]) or len(x["edges"]) != len(edges):
+            return Failure(c, o, f"rustworkx multigraph: {len(edges)} edges written, {len(x['edges'])} read", {"why": "edges", "multi": True})
+        r = compare(c, {"directed": directed, "nodes": nodes, "edges": {}}, x["directed"], {inv[i]: d for i, d in x["view_nodes"]}, {}, "rx", [])
+        for j, ((e, a), (ge, gd)) in enumerate(zip(edges, x["edges"])):
+            if r is not None:
+                break
+            gkey = (inv[ge[0]], inv[ge[1]])
+            if norm(gkey) != norm(e):
+                r = (f"edge {j}: {e} came back as {gkey}", {"why": "edges"})
+                break
+            ends = {e[0]: nodes[e[0]], e[1]: nodes[e[1]]}
+            r = compare(c, {"directed": directed, "nodes": ends, "edges": {e: a}}, directed,
+                        {k: {kk: cv(vv) for kk, vv in d.items()} for k, d in ends.items()}, {gkey: gd}, "rx", [])
+    else:
+        return None
+    if r is None:
+        return None
+    what, tags = r
+    return Failure(c, o, f"multigraph {w['lib']} -> {c['reader']}: {what}", dict(tags, writer=w["lib"], reader=c["reader"], multi=True))
 
 
 VALID_AXIS_TYPES = (None, "space", "time", "channel")
@@ -931,11 +1223,16 @@ def md_oracle(c, o, exp):
 # generators
 # --------------------------------------------------------------------------
 ID_POOL = [0, 1, 2, 3, 5, 7, 40, 255, 256, 65535, 2 ** 31, 2 ** 32 - 1, 2 ** 53 + 1, B63 - 2, B63 - 1, B63, B63 + 1, B63 + 5, B64 - 2, B64 - 1]
-FLOATS = [0.0, 0.5, 1.5, -2.25, 3.0, 100.125, -0.0009765625, 4096.0, 2.0 ** 20]
+FLOATS = [0.0, 0.5, 1.5, -2.25, 3.0, 100.125, -0.0009765625, 4096.0, 2.0 ** 20,
+          # multiples of 2^-10 that are NOT float32-exact (and not float16-exact): a narrowing through float32 would change them
+          2.0 ** 20 + 2.0 ** -10, 2.0 ** 40 + 2.0 ** -10, -(2.0 ** 30) - 2.0 ** -10, 8193.0009765625, 16777217.0]
+# floats the payload encoding (value * 2^10) cannot carry: oracle-only
+FLOATS_X = [0.1, 1e-7, 2.0 ** -30, 1 / 3, 1e300, 5e-324, -0.1, 123456.789, {"__f__": "nan"}, {"__f__": "inf"}, {"__f__": "-inf"}]
 INTS = [0, 1, -1, 2, 7, -128, 255, 2 ** 31, -(2 ** 31) - 1, 2 ** 53 + 1, B63 - 1, -B63]
 BIGINTS = [B63, B63 + 1, B63 + 5, B64 - 1, B64 - 2]
-STRS = ["a", "", "bcd", "ünï", "x y", "0", "日本"]
-NAMES = ["a", "b", "w", "score", "label", "flag", "p0", "vec", "名"]
+STRS = ["a", "", "bcd", "ünï", "x y", "0", "日本", " a "]
+STRS_NUL = ["a\x00", "\x00", "ab\x00\x00", "a\x00b"]          # trailing NULs are stripped by numpy's <U (open finding); an inner NUL is kept
+NAMES = ["a", "b", "w", "score", "label", "flag", "p0", "vec", "名", " ", "a.b", "..a", "values", "c"]
 
 
 def rand_ids(rng, n, big=True):
@@ -966,7 +1263,11 @@ def rand_list(rng, kind, shape):
 
 
 COLUMN_KINDS = ["bool", "int", "float", "str", "bigint", "int+bigint", "list1", "list2", "ragged", "ragged2", "ragged_rank", "ragged_empty",
-                "int+float", "bool+int", "liststr", "listbool"]
+                "int+float", "bool+int", "liststr", "listbool", "listbig", "raggedbig", "emptylists"]
+# value classes outside the Coq encoding (oracle-only): numpy scalars / arrays as attribute values, non-dyadic / non-finite floats,
+# strings with NUL characters
+X_KINDS = ["floatx", "floatx_list", "strnul", "np_bool", "np_u64", "np_i8", "np_f32", "np_f16", "np_mixed", "np_arr_u8", "np_arr_f32",
+           "np_arr_bool", "np_arr_ragged", "np_arr_ragged_mixed", "np_arr_u64"]
 
 
 def rand_column(rng, n, kind=None, presence=None):
@@ -991,6 +1292,50 @@ def rand_column(rng, n, kind=None, presence=None):
         lk = rng.choice(["int", "float", "bool"])
         sh = [rng.randint(1, 2), rng.randint(1, 3)]
         vals = [rand_list(rng, lk, sh) for _ in range(n)]
+    elif kind == "listbig":
+        k = rng.randint(1, 3)
+        vals = [rand_list(rng, "bigint", [k]) for _ in range(n)]
+    elif kind == "raggedbig":
+        vals = [rand_list(rng, "bigint", [rng.randint(1, 3)]) for _ in range(n)]
+    elif kind == "emptylists":
+        sh = rng.choice([[0], [0], [2, 0], [0, 2]])
+        vals = [rand_list(rng, "int", sh) for _ in range(n)]
+    elif kind == "floatx":
+        vals = [rng.choice(FLOATS_X) for _ in range(n)]
+    elif kind == "floatx_list":
+        k = rng.randint(1, 2)
+        vals = [[rng.choice(FLOATS_X[:8]) for _ in range(k)] for _ in range(n)]
+    elif kind == "strnul":
+        vals = [rng.choice(STRS_NUL + STRS[:3]) for _ in range(n)]
+        if n:
+            vals[rng.randrange(n)] = rng.choice(STRS_NUL[:3])
+    elif kind == "np_bool":
+        vals = [np_scalar("bool", rng.random() < 0.5) for _ in range(n)]
+    elif kind == "np_u64":
+        vals = [np_scalar("uint64", rng.choice(BIGINTS)) for _ in range(n)]
+    elif kind == "np_i8":
+        vals = [np_scalar("int8", rng.randint(-128, 127)) for _ in range(n)]
+    elif kind == "np_f32":
+        vals = [np_scalar("float32", rng.choice([0.1, 1.5, -2.25, 1e-7, 3.0e38])) for _ in range(n)]
+    elif kind == "np_f16":
+        vals = [np_scalar("float16", rng.choice([0.1, 1.5, -2.25, 1000.5])) for _ in range(n)]
+    elif kind == "np_mixed":
+        vals = [rng.choice([np_scalar("int8", -1), np_scalar("uint8", 200), np_scalar("int64", 2 ** 40), np_scalar("uint16", 7)]) for _ in range(n)]
+    elif kind == "np_arr_u8":
+        k = rng.randint(1, 3)
+        vals = [np_array("uint8", [rng.randint(0, 255) for _ in range(k)]) for _ in range(n)]
+    elif kind == "np_arr_f32":
+        k = rng.randint(1, 3)
+        vals = [np_array("float32", [rng.choice([0.1, 1.5, -2.25, 1e-7]) for _ in range(k)]) for _ in range(n)]
+    elif kind == "np_arr_bool":
+        vals = [np_array("bool", [[rng.random() < 0.5, rng.random() < 0.5]]) for _ in range(n)]
+    elif kind == "np_arr_ragged":
+        vals = [np_array("uint8", [rng.randint(0, 255) for _ in range(rng.randint(1, 3))]) for _ in range(n)]
+    elif kind == "np_arr_ragged_mixed":
+        vals = [np_array(rng.choice(["int8", "uint8"]), [rng.randint(0, 100) for _ in range(rng.randint(1, 3))]) for _ in range(n)]
+    elif kind == "np_arr_u64":
+        k = rng.randint(1, 2)
+        vals = [np_array("uint64", [rng.choice(BIGINTS) for _ in range(k)]) for _ in range(n)]
     elif kind == "ragged":
         lk = rng.choice(["int", "float", "bool", "str"])
         vals = [rand_list(rng, lk, [rng.randint(1, 3)]) for _ in range(n)]
@@ -1187,6 +1532,8 @@ SG_TEMPLATES = {
     "T2": {"axes": ["x", "y"], "axk": "float", "nattrs": {"a": ("int", None)}, "eattrs": {"w": ("float", None)}},
     "T3": {"axes": ["t", "y", "x"], "axk": "int", "nattrs": {"vec": ("int", 2)}, "eattrs": {}},
     "T4": {"axes": ["x"], "axk": "float", "nattrs": {"a": ("int", None), "score": ("float", None)}, "eattrs": {"w": ("int", None), "ev": ("float", 2)}},
+    # negative control (used with idt = int8 / uint8 only): an 8-bit VECTOR attribute, which spatial_graph hands back as bytes
+    "T8": {"axes": ["x"], "axk": "float", "nattrs": {"vec": ("int", 2)}, "eattrs": {}},
 }
 
 
@@ -1324,11 +1671,130 @@ def pm_dtype(p):
     return "float32" if dt == "float16" else dt
 
 
+# ---- audit streams ----
+def x_cases(rng, quick):
+    """Attribute values outside the Coq encoding (oracle-only): non-dyadic / non-finite floats, strings with NUL, numpy scalars and
+    ndarrays as attribute values -- inside the quantifier of the property ("scalar ... fixed-shape and ragged lists/arrays")."""
+    out = []
+    for i in range(90 if quick else 900):
+        directed = rng.random() < 0.5
+        n = rng.choice([1, 2, 3, 4])
+        ids = rand_ids(rng, n)
+        edges = rand_edges(rng, ids, directed)
+        kinds = [X_KINDS[i % len(X_KINDS)]] + ([rng.choice(X_KINDS)] if rng.random() < 0.3 else [])
+        ncols = {nm: rand_column(rng, n, kind=k) for nm, k in zip(rng.sample(NAMES[:9], len(kinds)), kinds)}
+        if rng.random() < 0.5:
+            ncols["plain"] = rand_column(rng, n, kind=rng.choice(["int", "float", "str", "bool"]))
+        ecols = {"ex": rand_column(rng, len(edges), kind=rng.choice(X_KINDS))} if edges and rng.random() < 0.5 else {}
+        na, ea = attach(n, ncols), attach(len(edges), ecols)
+        w = {"lib": "nx", "directed": directed, "nodes": [[i_, a] for i_, a in zip(ids, na)], "edges": [[list(e), a] for e, a in zip(edges, ea)],
+             "axes": None}
+        fmt = 2 + i % 2
+        out.append(case(w, "nx", fmt, block="xvals", oracle_only=True))
+        if i % 3 == 0:
+            out.append(case(to_rx_writer(rng, w, idmap_mode=rng.choice(["none", "ids"])), "rx", fmt, block="xvals", oracle_only=True))
+    # fixed witnesses of the audit (p1.py / p3.py)
+    fixed = [
+        [[1, {"p": "a\x00"}], [2, {"p": "b"}]], [[1, {"p": "\x00"}], [2, {}]], [[1, {"p": ["a\x00", "b"]}], [2, {"p": ["c", "d"]}]],
+        [[1, {"p": 2.0 ** 20 + 2.0 ** -10}], [2, {}]], [[1, {"p": 0.1}], [2, {"p": 1e-7}]], [[1, {"p": {"__f__": "nan"}}], [2, {"p": 1.0}]],
+        [[1, {"p": np_scalar("uint64", B63 + 5)}], [2, {}]], [[1, {"p": np_scalar("bool", True)}], [2, {}], [3, {"p": np_scalar("bool", False)}]],
+        [[1, {"p": np_array("uint8", [1, 2])}], [2, {}], [3, {"p": np_array("uint8", [3, 4])}]],
+        [[1, {"p": np_array("uint8", [1, 2])}], [2, {}], [3, {"p": np_array("uint8", [3])}]],
+        [[1, {"p": np_array("int8", [1, 2])}], [3, {"p": np_array("uint8", [200])}]],
+        [[1, {"p": np_scalar("float32", 0.1)}], [2, {}]], [[1, {"p": np_scalar("float16", 0.1)}], [2, {}]],
+        [[1, {"p": np_scalar("int8", -1)}], [2, {"p": np_scalar("uint64", B63)}]],
+    ]
+    for nodes in fixed:
+        for fmt in (2, 3):
+            out.append(case({"lib": "nx", "directed": True, "nodes": nodes, "edges": [], "axes": None}, "nx", fmt, block="xvals", oracle_only=True))
+    return out
+
+
+def multi_cases(rng, quick):
+    """Graphs with a REPEATED edge: rustworkx multigraphs (parallel edges; (a,b) and (b,a) undirected) written and read through
+    rustworkx / networkx, and in-memory geffs with a repeated edge through both constructs."""
+    out = []
+    for i in range(40 if quick else 400):
+        directed = rng.random() < 0.5
+        n = rng.choice([2, 2, 3, 4])
+        ids = rand_ids(rng, n)
+        base = rand_edges(rng, ids, directed, max_e=3) or [(ids[0], ids[1])]
+        edges = list(base)
+        for _ in range(rng.randint(1, 3)):
+            u, v = rng.choice(base)
+            edges.append((v, u) if (not directed and rng.random() < 0.5) else (u, v))
+        rng.shuffle(edges)
+        ecols = {"w": rand_column(rng, len(edges), kind=rng.choice(["int", "float", "bool", "str"]), presence=rng.choice(["all", "subset"]))}
+        if rng.random() < 0.5:
+            ecols["u"] = rand_column(rng, len(edges), kind=rng.choice(["int", "list1"]), presence="subset")
+        ncols = {"a": rand_column(rng, n, kind="int")} if rng.random() < 0.5 else {}
+        w = {"lib": "nx", "directed": directed, "nodes": [[i_, a] for i_, a in zip(ids, attach(n, ncols))],
+             "edges": [[list(e), a] for e, a in zip(edges, attach(len(edges), ecols))], "axes": None}
+        wr = to_rx_writer(rng, w, idmap_mode=rng.choice(["none", "ids"]))
+        fmt = 2 + i % 2
+        for r in ("rx", "nx", "mem"):
+            out.append(case(wr, r, fmt, block="multi", multi=True))
+    # in-memory geffs with a repeated edge (structurally valid): undirected (1,2),(2,1) and directed (1,2),(1,2) (audit p5.py), and random ones
+    for directed, e in ((False, [1, 2, 2, 1]), (True, [1, 2, 1, 2]), (False, [1, 1, 1, 1]), (True, [2, 1, 1, 2, 2, 1])):
+        ne = len(e) // 2
+        wm = {"lib": "mem", "nids": {"dtype": "uint64", "shape": [2], "data": [1, 2]}, "eids": {"dtype": "uint64", "shape": [ne, 2], "data": e},
+              "nprops": {}, "eprops": {"w": {"values": {"dtype": "int64", "shape": [ne], "data": list(range(1, ne + 1))},
+                                             "missing": {"dtype": "bool", "shape": [ne], "data": [False] * (ne - 1) + [ne > 2]}}},
+              "md": {"directed": directed, "nprops_md": {}, "eprops_md": {"w": {"identifier": "w", "dtype": "int64"}}}}
+        for r in ("nx", "rx"):
+            out.append(case(wm, r, 2, block="multi", multi=True))
+    return out
+
+
+NAME_POOL = ["a", " ", "a.b", "..a", "...", "values", "missing", "c", "A", "é", "名", "p" * 300, "a b", "-", "_", "0", "nodes", "props",
+             ".a", "a.", "zarr.json", ".zattrs", ".zarray", ".zgroup", ".zmetadata", "a/b", "a/values", "/a", "a/", "//", "a//b", "a\\b",
+             ".", "..", "./a", "a/../b", "c/0", "", "\t", "\n", "a\x00b", ".zattrs2", "zarr.json.bak", "zarr.jsonx"]
+NAME_SETS = [["a", "a/b"], ["a/b", "a/c"], ["a", "A"], ["x", "x/values"], ["a", "a."], [".zattrs", "b"], ["a", "b", "c"]]
+
+
+def name_cases(rng, quick):
+    """Property NAMES (audit F3): every name alone on the nodes and on the edges, and some sets of names, under zarr 2 and 3 (one case
+    runs both formats).  Tied to Names.name_ok_fmt in Coq (single names without control characters); oracle: refused cleanly or exact."""
+    out = []
+    for on in ("node", "edge"):
+        for names in [[n] for n in NAME_POOL] + (NAME_SETS if on == "node" else NAME_SETS[:3]):
+            attrs1 = {nm: 1 + k for k, nm in enumerate(names)}
+            attrs2 = {nm: 10 + k for k, nm in enumerate(names)}
+            if on == "node":
+                w = {"lib": "nx", "directed": True, "nodes": [[1, attrs1], [2, attrs2]], "edges": [[[1, 2], {}]], "axes": None}
+            else:
+                w = {"lib": "nx", "directed": True, "nodes": [[1, {}], [2, {}], [3, {}]], "edges": [[[1, 2], attrs1], [[2, 3], attrs2]], "axes": None}
+            c = case(w, "nx", 0, block="names", names=list(names), on=on)
+            c["kind"] = "name"
+            out.append(c)
+    return out
+
+
+def sg8_cases(rng, quick):
+    """Negative control (audit F1): int8 / uint8 VECTOR attributes and an 8-bit position through spatial-graph.  spatial_graph hands
+    them back as a bytes scalar (the 8-bit position makes the adapter raise IndexError): outside sg_dom / sgc_dom, known finding."""
+    out = []
+    for idt in (["int8"] if quick else ["int8", "uint8"]):
+        for directed in ((True,) if quick else (True, False)):
+            for k in range(1 if quick else 3):
+                wm = mem_from_template(rng, "T8", directed, idt=idt, n=2 + k)
+                out.append(case(wm, "sg", 2, block="sg8", oracle_only=True, sg8=True))
+                out.append(case(wm, "nx", 2, block="sg8"))
+                ws = template_sg(rng, "T8", directed, idt=idt, n=2 + k, md_mode="arg")
+                out.append(case(ws, "sg", 2 + k % 2, block="sg8", oracle_only=True, sg8=True))
+                out.append(case(ws, "nx", 2 + k % 2, block="sg8"))
+                out.append(case(ws, "mem", 2 + k % 2, block="sg8"))
+                w1 = mem_from_template(rng, "T1", directed, idt=idt, n=2)           # 8-bit position
+                out.append(case(w1, "sg", 2, block="sg8", oracle_only=True, sg8=True))
+                out.append(case(w1, "nx", 2, block="sg8"))
+    return out
+
+
 def case(writer, reader, fmt=2, pos="position", **kw):
     return {"kind": "construct" if writer["lib"] == "mem" else "rt", "writer": writer, "reader": reader, "fmt": fmt, "pos": pos, **kw}
 
 
-EXH_VALUES = [None, True, False, 0, 7, B63, B64 - 1, 1.5, "a", "", [1, 2], [3], [[1, 2]], [1.5]]
+EXH_VALUES = [None, True, False, 0, 7, B63, B64 - 1, 1.5, "a", "", [1, 2], [3], [[1, 2]], [1.5], [B63, B64 - 1], []]
 EXH3_VALUES = [None, True, 0, B63, 1.5, "a", [1, 2], [3], [1.5]]
 
 
@@ -1347,6 +1813,12 @@ def needs_skip_model(col) -> bool:
 
 
 def writer_outside_model(w) -> bool:
+    if w["lib"] in ("nx", "rx"):
+        tabs = ([a for _, a in w["nodes"]] if w["lib"] == "nx" else [a for a in w["slots"] if a is not None]) + [a for _, a in w["edges"]]
+        if any(val_outside_model(v) for d in tabs for v in d.values()):
+            return True
+        if any(any(ord(ch) < 32 for ch in k) for d in tabs for k in d):
+            return True                                 # a name the Coq string printer cannot carry
     if w["lib"] == "nx":
         tables = ([a for _, a in w["nodes"]], [a for _, a in w["edges"]])
     elif w["lib"] == "rx":
@@ -1399,7 +1871,7 @@ def generate(rng: random.Random, tier: str):
         fmt = rng.choice([2, 3])
         readers = ["mem", "nx", "rx"] if i % 2 == 0 else [rng.choice(["mem", "nx", "rx"])]
         for r in readers:
-            out.append(case(w, r, fmt))
+            out.append(case(w, r, fmt, **({"store": "path"} if i % 8 == 3 else {})))
         if i % 2 == 1:
             wr = to_rx_writer(rng, w)
             for r in (["mem", "nx", "rx"] if i % 4 == 1 else [rng.choice(["nx", "rx"])]):
@@ -1426,7 +1898,7 @@ def generate(rng: random.Random, tier: str):
                     for a in ws["eattrs"].values():
                         a["rows"] = []
                 for r in ("nx", "rx", "sg", "mem"):
-                    out.append(case(ws, r, fmt))
+                    out.append(case(ws, r, fmt, **({"store": "path"} if k == 2 else {})))
                 wm = mem_from_template(rng, tname, directed)
                 for r in ("nx", "rx", "sg"):
                     out.append(case(wm, r, fmt))
@@ -1466,6 +1938,11 @@ def generate(rng: random.Random, tier: str):
             out.append(case(ws, "sg", fmt))
     # ---- metadata call shapes of the dict-based backends (BackendsMd.v) ----
     out.extend(md_cases(rng, quick))
+    # ---- audit streams: values outside the encoding, repeated edges, property names, 8-bit vectors through spatial-graph ----
+    out.extend(x_cases(rng, quick))
+    out.extend(multi_cases(rng, quick))
+    out.extend(name_cases(rng, quick))
+    out.extend(sg8_cases(rng, quick))
     # ---- malformed / boundary stream ----
     out.extend(malformed(rng, quick))
     for c in out:
